@@ -52,7 +52,7 @@ def jobs_for(pid):
       m = json.load(open(meta))
     except (OSError, ValueError):
       continue
-    if m.get('property') == pid:
+    if m.get('property') == pid and m.get('detected_by'):      # a seed recorded as NOT detected is kept, not replayed
       out.append((pid, 'break', '', '', '', 'seeded/' + m.get('id', ''), os.path.join(os.path.dirname(meta), 'patch.diff')))
   # behaviour-preserving refactorings written by independent agents (benign/*.diff): every check must stay silent
   for bp in sorted(glob.glob(os.path.join(VERIF, 'benign', '*.diff'))):
